@@ -17,7 +17,7 @@ def run(ctx):
     ctx.guarded(r, R.r_samples_voxel)
     r = ctx.rule("R4", "tile merge: bounds, greater depth wins, clamp compares with and assigns the grid depth", 6)
     ctx.guarded(r, R.r_assembly_voxel)
-    r = ctx.rule("R5", "the tile's box goes through the view as an interval: Transformable for Interval is the homogeneous interval transform", 3)
-    ctx.guarded(r, lambda rule: SC.r_transformable(rule, ("Interval",)))
+    r = ctx.rule("R5", "the tile's box goes through the view as an interval: Transformable for Interval is the homogeneous interval transform, and samples / normals go through its f32 / Grad siblings", 4)
+    ctx.guarded(r, lambda rule: SC.r_transformable(rule, ("Interval", "f32", "Grad")))
     r = ctx.rule("R6", "voxel positions follow the documented screen-to-world map", 6)
     ctx.guarded(r, R.r_view_convention)
